@@ -10,8 +10,10 @@
    The code never sees absolute positions and vg_P is unconstrained, so every fact proved for the
    window is a fact for every position of every source; nothing depends on VG_SRC_MAX except that it
    holds the 13 bytes that one scan step of skip_sfx looks at (leadin[i .. i+13)).
+   (An absolute Skolem position is used rather than a lead-in index j: an index is not stable when
+   empty_leadin shifts the buffer, a source position is.)
    Logical position of the stream = vg_cur - leadin_len; STREAM_OK says the lead-in buffer replays the
-   source bytes just before vg_cur. */
+   source bytes just before vg_cur:  leadin[j] == source byte (vg_cur - leadin_len + j)  for j < leadin_len. */
 #include "vg_common.h"
 #include <stdio.h>
 #include <limits.h>
@@ -49,11 +51,8 @@ size_t vg_L0;         /* lha_input_stream_read: logical position at which delive
 	 __CPROVER_forall { int vt_; (0 <= vt_ && vt_ < VG_SRC_MAX) ==> \
 		((VG_NEAR && VG_D8 + vt_ >= 0 && VG_D8 + vt_ < (int) vg_st.leadin_len) ==> vg_st.leadin[VG_D8 + vt_] == vg_src[vt_]) })
 
-/* buffer b holds the source bytes [from, from+n): b[p - from] == source byte p (stated for the window) */
-#define VG_DELIVERED(b, from, n) \
-	(__CPROVER_forall { unsigned vu_; (vu_ < VG_SRC_MAX) ==> \
-		((VG_REL(from) + vu_ < (size_t) (n)) ==> (b)[VG_REL(from) + vu_] == vg_src[vu_]) })
-/* same, first window byte only (used where the buffer is of unbounded size) */
+/* buffer b holds the source bytes [from, from+n): b[p - from] == source byte p, stated for p = vg_P
+   (vg_P arbitrary, hence for every p) */
 #define VG_DELIVERED0(b, from, n) ((VG_REL(from) < (size_t) (n)) ==> (b)[VG_REL(from)] == vg_src[0])
 
 /* Method signature at bytes 2..6 of a header (file format: "-lh?-", "-lz4-", "-lz5-", "-lzs-",
@@ -149,8 +148,10 @@ const LHAInputStreamType vg_type_cb = { vg_src_read, vg_src_skip, vg_src_close }
 const LHAInputStreamType vg_type_rd = { vg_src_read, NULL, NULL };
 /* Which type the stream under test has: vg_tk = 1 callbacks with skip+close, 2 callbacks with read only,
    3 owned FILE, 4 unowned FILE; vg_tp / vg_hp = the matching type object and handle (set together in
-   vg_havoc; DFCC does not take disjunctions of pointer equalities in requires clauses, so contracts say
-   `type == vg_tp` and the harness picks vg_tp).  VG_TK_LO..VG_TK_HI is the range a group covers. */
+   vg_havoc).  Contracts say `type == vg_tp`, and vg_havoc also ASSIGNS vg_st.type = vg_tp: CBMC resolves
+   `stream->type->read` through the pointer's value set, which an assumed equality with a non-constant
+   does not refine (measured: spurious "pointer NULL in stream->type->read").
+   VG_TK_LO..VG_TK_HI is the range of kinds a group covers. */
 int vg_tk;
 const LHAInputStreamType *vg_tp;
 void *vg_hp;
